@@ -891,6 +891,7 @@ class ClientSession:
 
             if req._body is not None:
                 await req._body.close()
+            resp._history = tuple(history)
             # check response status
             if raise_for_status is None:
                 raise_for_status = self._raise_for_status
@@ -906,8 +907,6 @@ class ClientSession:
                     resp.connection.add_callback(handle.cancel)
                 else:
                     handle.cancel()
-
-            resp._history = tuple(history)
 
             for trace in traces:
                 await trace.send_request_end(
